@@ -57,3 +57,13 @@
 (define-fun be64 ((a Bytes) (lo Int) (hi Int)) Int
   (+ (* 72057594037927936 (select a lo)) (* 281474976710656 (select a (+ lo 1))) (* 1099511627776 (select a (+ lo 2)))
      (* 4294967296 (select a (+ lo 3))) (* 16777216 (select a (+ lo 4))) (* 65536 (select a (+ lo 5))) (* 256 (select a (+ lo 6))) (select a (+ lo 7))))
+
+;;; block keyvaluetypes
+; HBase KeyValue.Type codes (Put 4, Delete 8, DeleteFamilyVersion 10, DeleteColumn 12, DeleteFamily 14) and the protobuf
+; MutationProto.DeleteType they correspond to (DELETE_ONE_VERSION 0, DELETE_MULTIPLE_VERSIONS 1, DELETE_FAMILY 2,
+; DELETE_FAMILY_VERSION 3) -- the table of HBase's ProtobufUtil.fromDeleteType / toDeleteType.
+(define-fun kvTypeOfPbDelete ((d Int)) Int (ite (= d 0) 8 (ite (= d 1) 12 (ite (= d 2) 14 10))))
+; the delete kind a mutation denotes: whole family (no qualifiers given) or listed columns; one version or all versions
+(define-fun pbDeleteKind ((wholeFamily Bool) (oneVersion Bool)) Int (ite wholeFamily (ite oneVersion 3 2) (ite oneVersion 0 1)))
+(define-fun kvTypeOfMutation ((isDelete Bool) (wholeFamily Bool) (oneVersion Bool)) Int
+  (ite isDelete (kvTypeOfPbDelete (pbDeleteKind wholeFamily oneVersion)) 4))
